@@ -621,6 +621,8 @@ func C05(tier string) int {
 		for _, sc := range []*linkScenario{newLinkScenario("links 2x2, 2 ops per tx", a2, b2, true, false, 0), newLinkScenario("ref-counted 2x2 counts<=2, 2 ops per tx", a2, b2, false, true, 2)} {
 			runE1(rep, sc, explore.Config{Programs: c05PairPrograms(sc.Ops()), SkipRejectedPrefix: true})
 		}
+		// three entities on one side (an entry in the middle of a link bucket; delete with three links)
+		run(newLinkScenario("links 2x3", a2, []string{"b1", "b1x", "b2"}, true, false, 0), 0)
 		setLinksExhaustive(rep, 3)
 	} else {
 		run(newLinkScenario("links 2x3", a2, []string{"b1", "b1x", "b2"}, true, false, 0), 0)
